@@ -41,6 +41,18 @@ int k_stoi_def(char const* s, sz n);
 //   VF_KNOWN(C10_from_chars_overflow_ptr, std reports result_out_of_range)
 //   VF_KNOWN(C10_to_integer_overflow_result, the reference parser reports a range error)
 #define KF_MODE(ID) (VF_KF_##ID)
+// branch witnesses are demanded only where the branch is reachable: a text of SN >= 1 characters can parse; spec.py sets
+// WOVF where a text of SN characters can overflow TY
+#if SN >= 1
+#define WIT_PARSED vf_witness("parsed")
+#else
+#define WIT_PARSED ((void)0)
+#endif
+#if defined(WOVF) && WOVF
+#define WIT_OVERFLOW vf_witness("overflow")
+#else
+#define WIT_OVERFLOW ((void)0)
+#endif
 template <class T> static T nd_as()
 {
     if constexpr (sizeof(T) == 1) return T(vf_nd_u8());
@@ -87,9 +99,10 @@ static void check_from_chars(bool defbase)
     vf_assert(*v == ev, "from_chars value == std::from_chars (unmodified on error)");
     if (!(KF_MODE(C10_from_chars_overflow_ptr) == 1 && ovf))
         vf_assert(*op == s + (er.ptr - s), "from_chars ptr == std::from_chars (characters consumed)");
-    if (er.ec == std::errc{}) vf_witness("parsed");
-    else if (ovf) vf_witness("out_of_range");
-    else vf_witness("invalid");
+    // (each witness is followed by its own assertion so that the optimiser cannot merge the three calls into one)
+    if (er.ec == std::errc{}) { WIT_PARSED; vf_assert(ec == 0, "from_chars: parsed text reports no error"); }
+    if (ovf) { WIT_OVERFLOW; vf_assert(ec == 2, "from_chars: result_out_of_range exactly when std reports it"); }
+    if (er.ec == std::errc::invalid_argument) { vf_witness("invalid"); vf_assert(ec == 3, "from_chars: invalid_argument exactly when std reports it"); }
 }
 Q q_from_chars() { check_from_chars(false); }
 Q q_from_chars_def() { check_from_chars(true); }
@@ -113,9 +126,9 @@ Q q_to_integer()
     char const** oe = (char const**)vf_alloc(sizeof(char*));
     int err = k_to_integer(s, SN, VT(base), v, oe);
     vf_assert(err == r.err, "to_integer error class (none / invalid_input / overflow) == reference strtol semantics");
-    if (r.err == 0) { vf_witness("parsed"); vf_assert(U64(*v) == r.bits, "to_integer value == reference"); }
+    if (r.err == 0) { WIT_PARSED; vf_assert(U64(*v) == r.bits, "to_integer value == reference"); }
     if (r.err == 1) { vf_witness("invalid"); vf_assert(*oe == s, "to_integer end == start when nothing was converted"); }
-    if (r.err == 2) vf_witness("overflow");
+    if (r.err == 2) WIT_OVERFLOW;
     if (r.err != 1 && !(KF_MODE(C10_to_integer_overflow_result) == 1 && r.err == 2))
         vf_assert(*oe == s + r.consumed, "to_integer end == one past the last digit (also on overflow, as strtol)");
 }
@@ -132,8 +145,8 @@ template <class R, class F> static void check_strto(F kernel, bool nullend)
         vf_assert(U64(v) == r.bits, "strto* value == C standard (0 if no conversion, the limit on overflow)");
         if (!nullend) vf_assert(*last == s + r.consumed, "strto* end pointer == C standard");
     }
-    if (r.err == 0) vf_witness("parsed");
-    if (r.err == 1) vf_witness("no_conversion");
+    if (r.err == 0) { WIT_PARSED; vf_assert(nullend || *last != s, "strto*: a conversion consumes at least one character"); }
+    if (r.err == 1) { vf_witness("no_conversion"); vf_assert(v == 0, "strto*: 0 when no conversion is performed"); }
 }
 Q q_strtol() { check_strto<long>(k_strtol, false); }
 Q q_strtoll() { check_strto<long long>(k_strtoll, false); }
@@ -151,8 +164,8 @@ template <class R, class F> static void check_ato(F kernel)
     VF_KNOWN(C10_strto_plus_sign, r.plus);
     R v = kernel(s);
     vf_assert(U64(v) == r.bits, "ato* value == strtol(s, nullptr, 10)");
-    if (r.err == 0) vf_witness("parsed");
-    if (r.err == 1) vf_witness("no_conversion");
+    if (r.err == 0) { WIT_PARSED; vf_assert(U64(v) == r.bits, "ato*: parsed value"); }
+    if (r.err == 1) { vf_witness("no_conversion"); vf_assert(v == 0, "ato*: 0 when no conversion is performed"); }
 }
 Q q_atoi() { check_ato<int>(k_atoi); }
 Q q_atol() { check_ato<long>(k_atol); }
